@@ -1,4 +1,5 @@
 // C06 / C03 : the four loaders through both routes, query batteries, clear
+#include <fcntl.h>
 #include "sbh_common.hpp"
 extern "C" {
 #include <skybrush/lights.h>
@@ -135,7 +136,46 @@ struct RouteResult {
     int rc = -1;
     std::string bytes, battery, cleared;
     int owned = -1;
+    std::string fdnote;   // descriptor route only: what happened to the caller's descriptor ("" = nothing)
 };
+
+// a second load through the same descriptor (rewound by the caller): rc and block bytes only
+static void reload_fd(char kind, int fd, int* rc, std::string* bytes)
+{
+    if (kind == 't') {
+        sb_trajectory_t tr;
+        memset(&tr, 0, sizeof(tr));
+        *rc = sb_trajectory_init_from_binary_file(&tr, fd);
+        if (*rc == SB_SUCCESS) {
+            *bytes = hex(SB_BUFFER(tr.buffer), sb_buffer_size(&tr.buffer));
+            sb_trajectory_destroy(&tr);
+        }
+    } else if (kind == 'l') {
+        sb_light_program_t prog;
+        memset(&prog, 0, sizeof(prog));
+        *rc = sb_light_program_init_from_binary_file(&prog, fd);
+        if (*rc == SB_SUCCESS) {
+            *bytes = hex(SB_BUFFER(prog.buffer), sb_buffer_size(&prog.buffer));
+            sb_light_program_destroy(&prog);
+        }
+    } else if (kind == 'y') {
+        sb_yaw_control_t ctrl;
+        memset(&ctrl, 0, sizeof(ctrl));
+        *rc = sb_yaw_control_init_from_binary_file(&ctrl, fd);
+        if (*rc == SB_SUCCESS) {
+            *bytes = hex(SB_BUFFER(ctrl.buffer), sb_buffer_size(&ctrl.buffer));
+            sb_yaw_control_destroy(&ctrl);
+        }
+    } else {
+        sb_rth_plan_t plan;
+        memset(&plan, 0, sizeof(plan));
+        *rc = sb_rth_plan_init_from_binary_file(&plan, fd);
+        if (*rc == SB_SUCCESS) {
+            *bytes = hex(plan.buffer, plan.buffer_length);
+            sb_rth_plan_destroy(&plan);
+        }
+    }
+}
 
 static RouteResult run_route(char kind, bool mem, const std::vector<uint8_t>& file)
 {
@@ -191,8 +231,25 @@ static RouteResult run_route(char kind, bool mem, const std::vector<uint8_t>& fi
             sb_rth_plan_destroy(&plan);
         }
     }
-    if (fd >= 0)
-        close(fd);
+    if (fd >= 0) {
+        // the descriptor stays the caller's: still open, and the same bytes load the same way through it again
+        if (fcntl(fd, F_GETFD) == -1) {
+            r.fdnote = "descriptor-closed-by-the-library";
+        } else {
+            int rc2 = -1;
+            std::string bytes2;
+            lseek(fd, 0, SEEK_SET);
+            reload_fd(kind, fd, &rc2, &bytes2);
+            if (rc2 != r.rc)
+                r.fdnote = "second-load-through-the-same-descriptor-rc=" + std::to_string(rc2);
+            else if (rc2 == SB_SUCCESS && bytes2 != r.bytes)
+                r.fdnote = "second-load-through-the-same-descriptor-gives-other-bytes";
+            else if (fcntl(fd, F_GETFD) == -1)
+                r.fdnote = "descriptor-closed-by-the-library";
+        }
+        if (r.fdnote.empty())
+            close(fd);
+    }
     delete buf;
     return r;
 }
@@ -204,7 +261,7 @@ SB_OP(load2)
     char kind = t[2][0];
     RouteResult f = run_route(kind, false, v);
     RouteResult m = run_route(kind, true, v);
-    add(out, (long long)f.rc);
+    add(out, f.fdnote.empty() ? std::to_string(f.rc) : std::to_string(f.rc) + "!" + f.fdnote);
     add(out, (long long)m.rc);
     if (f.rc == SB_SUCCESS && m.rc == SB_SUCCESS) {
         add(out, f.bytes);
